@@ -3,6 +3,7 @@ package main
 import (
 	"fmt"
 	"go/token"
+	"go/types"
 	"sort"
 	"strings"
 
@@ -434,5 +435,67 @@ func c01RawViewsConsistent(c *Ctx) {
 	}
 	if n < 4 {
 		c.Unresolved("C01.R3", fmt.Sprintf("stores to rawData in the bolt / boltv2 codecs (found %d)", n))
+	}
+}
+
+// c01CloneKeepsEveryValue (R10): an HTTP/2 header map may hold several values per name (repeated header fields, gRPC
+// metadata); the request headers are cloned before they are sent upstream (ReqHeader.Clone in clientStream.AppendHeaders).
+// Clause: in (*HeaderMap).Clone every value list put into the clone is as long as the source list - the stored slice is
+// made with len(source list) and filled by copy(dst, source list) (or append(..., source list...)), where the source
+// list is the value the loop over h.H yields. A clone built from Range (first value of each key only) or from a single
+// element drops the 2nd and later values of a repeated header on the way upstream.
+func c01CloneKeepsEveryValue(c *Ctx) {
+	fn := c.M("pkg/protocol/http2", "HeaderMap", "Clone")
+	if fn == nil {
+		c.Unresolved("C01.R10", "(*http2.HeaderMap).Clone")
+		return
+	}
+	fk := funcKey(fn)
+	n := 0
+	forEachInstr(fn, true, func(f *ssa.Function, in ssa.Instruction) {
+		mu, ok := in.(*ssa.MapUpdate)
+		if !ok {
+			return
+		}
+		if _, isSlice := mu.Value.Type().Underlying().(*types.Slice); !isSlice {
+			return
+		}
+		n++
+		// the source list: the value yielded by ranging over the header map (extract #2 of next)
+		isSource := func(v ssa.Value) bool {
+			ex, ok := v.(*ssa.Extract)
+			if !ok || ex.Index != 2 {
+				return false
+			}
+			_, isNext := ex.Tuple.(*ssa.Next)
+			return isNext
+		}
+		okAll := false
+		switch x := mu.Value.(type) {
+		case *ssa.MakeSlice:
+			lenOK := false
+			if call, ok := x.Len.(*ssa.Call); ok {
+				if b, isB := call.Common().Value.(*ssa.Builtin); isB && b.Name() == "len" && isSource(call.Common().Args[0]) {
+					lenOK = true
+				}
+			}
+			copied := false
+			for _, r := range refs(x) {
+				if call, ok := r.(*ssa.Call); ok {
+					if b, isB := call.Common().Value.(*ssa.Builtin); isB && b.Name() == "copy" && call.Common().Args[0] == ssa.Value(x) && isSource(call.Common().Args[1]) && instrDominates(call, mu) {
+						copied = true
+					}
+				}
+			}
+			okAll = lenOK && copied
+		case *ssa.Call:
+			if b, isB := x.Common().Value.(*ssa.Builtin); isB && b.Name() == "append" && len(x.Common().Args) == 2 && isSource(x.Common().Args[1]) {
+				okAll = true
+			}
+		}
+		c.Check("C01.R10", fmt.Sprintf("%s:clone-keeps-every-value#%d", fk, n), mu.Pos(), okAll, "the cloned value list is a full copy of the source list", "the clone of an HTTP/2 header map does not carry every value of a key (the stored list is not a full copy of the list the map holds): repeated header fields lose their 2nd and later values when the request headers are cloned for the upstream request")
+	})
+	if n < 1 {
+		c.Unresolved("C01.R10", "the map update that fills the clone in (*http2.HeaderMap).Clone")
 	}
 }
